@@ -582,6 +582,10 @@ func (data *Data) DropShard(id uint64) {
 
 // CopyShardOwner copies a shard owner by ID and NodeID.
 func (data *Data) CopyShardOwner(id, nodeID uint64) {
+	// A node that is not (or no longer) part of the cluster cannot own a shard.
+	if data.DataNode(nodeID) == nil {
+		return
+	}
 	found := -1
 	for dbidx, dbi := range data.Databases {
 		for rpidx, rpi := range dbi.RetentionPolicies {
